@@ -193,11 +193,29 @@ func splitURI(uri string) (string, string) {
 func (d *c04) paths(m *mounting, b *baseReq) {
 	mi := b.mi
 	if !mi.Spec.OnEntity {
+		// a key where the method takes none (a collection-level action / finder / create / batch method addressed to an entity,
+		// anything below a simple resource): the request does not designate what the method is defined on
+		path, query := splitURI(b.w.URI)
+		q := ""
+		if query != "" {
+			q = "?" + query
+		}
+		for _, k := range []string{"1", "a", "(a:1)"} {
+			d.send(m, "path:extra-key", mi, b.w.Verb, path+"/"+k+q, b.w.ReqHeader, b.w.ReqBody, true, "a key where the method takes none")
+		}
 		return
 	}
 	kk := keyKind(mi)
 	where := "path:" + kk
 	path, query := splitURI(b.w.URI)
+	if i := strings.LastIndex(path, "/"); i > 0 {
+		// the key dropped: an entity-level method / action addressed to the collection
+		qq := ""
+		if query != "" {
+			qq = "?" + query
+		}
+		d.send(m, "path:key-dropped", mi, b.w.Verb, path[:i]+qq, b.w.ReqHeader, b.w.ReqBody, true, "entity-level method addressed to the collection (key dropped)")
+	}
 	i := strings.LastIndex(path, "/")
 	prefix, valid := path[:i+1], path[i+1:]
 	q := ""
